@@ -154,6 +154,40 @@ def _escape_chunk(args):
 MARKUP = ["<![CDATA[", "]]>", "<!--", "-->", "<?xml ", "?>", "&#x", "x < y & z", "a", ";"]
 
 
+def source_markers():
+    """Texts built from the string literals of text_utils' own source (entity names, markers,
+    private-use or control characters a rewrite parks data on): each literal alone, doubled,
+    inside ordinary text, next to each special character, and every ordered pair of literals."""
+    lits = [t for t in core.harvest_strings(_lib(), 24)]
+    out = []
+    for lit in lits:
+        out += [lit, lit + lit, "a" + lit + "b", "&" + lit, lit + "&", "<" + lit + ">",
+                lit + "'\"", lit[::-1], lit[:-1], lit[1:]]
+    for one in lits:
+        for two in lits:
+            if one != two:
+                out.append(one + two)
+    def legal(char):                        # XML 1.0 production [2] Char: the property's domain
+        code = ord(char)
+        return code in (0x9, 0xA, 0xD) or 0x20 <= code <= 0xD7FF or 0xE000 <= code <= 0xFFFD \
+            or 0x10000 <= code <= 0x10FFFF
+    return [t for t in dict.fromkeys(out) if t and all(legal(ch) for ch in t)]
+
+
+def _markers_chunk(texts):
+    part = core.Part()
+    for text in texts:
+        part.count("escape_cases")
+        part.count("source_marker_texts")
+        try:
+            bad = check_escape(text)
+        except Exception as exc:            # pylint: disable=broad-except
+            bad = [("raise", f"xml_escape({text!r}) could not be judged: {exc!r}")]
+        for clause, msg in bad:
+            part.violation(f"{clause}:{text!r}", msg, {"kind": "escape", "text": text})
+    return part
+
+
 def _markup_chunk(firsts):
     part = core.Part()
     for first in firsts:
@@ -388,7 +422,7 @@ def _dispatch(job):
     return {"esc": _escape_chunk, "dur": _duration_chunk, "half": _half_chunk,
             "halfms": _halfms_chunk,
             "int": _int_chunk, "long": _long_chunk, "edge": _edge_chunk,
-            "cp": _codepoint_chunk, "markup": _markup_chunk,
+            "cp": _codepoint_chunk, "markup": _markup_chunk, "markers": _markers_chunk,
             "decimal": _decimal_chunk}[job[0]](job[1])
 
 
@@ -402,6 +436,8 @@ def run(ctx):
         jobs.append(("long", chunk))
     for chunk in core.split(MARKUP, 10):
         jobs.append(("markup", chunk))
+    for chunk in core.split(source_markers(), 8):
+        jobs.append(("markers", chunk))
     spread = [0, 9.9994, 9.9996, 10, 10.7, 12.5, 59.4, 59.5, 3599.4, 3599.6, 3600, 86399.7, 99999.5,
               999999.4, 999999.5, 1000000, 1234567.5, 9999999.5, 10 ** 7] + \
         [k + 0.5 for k in range(10, 60)] + list(range(0, 4000, 37))
